@@ -283,6 +283,7 @@ func main() {
 					resp    response
 					died    bool
 					diedLog string
+					skipped bool
 				}
 				var jobs []*job
 				if d == 0 {
@@ -315,6 +316,10 @@ func main() {
 					wg.Add(1)
 					go func(j *job) {
 						defer wg.Done()
+						if time.Now().After(deadline) {
+							j.skipped = true // the budget ran out in the middle of this level
+							return
+						}
 						keys := append(append([]byte{}, j.n.Path...), j.tok.Keys...)
 						b, _ := json.Marshal(request{j.n.Start, keys, g[0], g[1], g[2]})
 						pr := pool.Call(b)
@@ -327,7 +332,12 @@ func main() {
 				}
 				wg.Wait()
 				var next []node
+				nSkipped := 0
 				for _, j := range jobs {
+					if j.skipped {
+						nSkipped++
+						continue
+					}
 					keys := append(append([]byte{}, j.n.Path...), j.tok.Keys...)
 					names := append(append([]string{}, j.n.Names...), j.tok.Name)
 					rc := replayCase{j.n.Start, keys, names, g[0], g[1], g[2]}
@@ -380,6 +390,11 @@ func main() {
 					}
 				}
 				frontier = next
+				if nSkipped > 0 {
+					r.Exhaustive = false
+					r.Note("budget of %s used up: phase %s at %dx%d preload %d stopped inside level %d of %d (%d of %d transitions of that level not run)", budget, ph.Name, g[0], g[1], g[2], d, depth, nSkipped, len(jobs))
+					break
+				}
 			}
 			r.States += int64(len(seen))
 			for k := range seen {
